@@ -45,6 +45,13 @@ const INCLUDE_RECURSION_COST: usize = 10;
 #[cfg(feature = "macros")]
 const MACRO_RECURSION_COST: usize = 4;
 
+// the cost of rendering a block (`{% block %}`, `self.block()`, `super()`) against
+// the stack limit.  A block is admitted when there is room for its frame; once it
+// runs it is charged like a macro call (its frame plus this cost) because it nests
+// a full interpreter activation on the native stack.
+#[cfg(feature = "multi_template")]
+const BLOCK_RECURSION_COST: usize = 5;
+
 struct Executor<'env>(std::marker::PhantomData<&'env Environment<'env>>);
 
 #[cfg(feature = "multi_template")]
@@ -992,6 +999,7 @@ impl<'env> Executor<'env> {
             state.blocks.get_mut(name).unwrap().pop();
             return Err(err);
         }
+        state.ctx.charge_depth(BLOCK_RECURSION_COST);
         if capture {
             out.begin_capture(CaptureMode::Capture);
         }
@@ -1006,6 +1014,7 @@ impl<'env> Executor<'env> {
             BlockState::Keep,
             |state| Self::eval_state(state, out),
         );
+        state.ctx.decr_depth(BLOCK_RECURSION_COST);
         state.ctx.pop_frame();
         state.blocks.get_mut(name).unwrap().pop();
 
@@ -1076,7 +1085,10 @@ impl<'env> Executor<'env> {
                 BlockState::Keep,
                 |state| {
                     ok!(state.ctx.push_frame(Frame::default()));
-                    Self::eval_state(state, out)
+                    state.ctx.charge_depth(BLOCK_RECURSION_COST);
+                    let rv = Self::eval_state(state, out);
+                    state.ctx.decr_depth(BLOCK_RECURSION_COST);
+                    rv
                 },
             );
             if let Some(block_stack) = state.blocks.get_mut(name) {
